@@ -93,6 +93,7 @@ def run_case(case):
 
     from vmon.simkit import reset_plan, drive_reset
     resets = reset_plan(case["cycles"])
+    async_pins = random.Random(case["stim_seed"] + ":async").random() < 0.4
 
     async def bench(ctx):
         for c in range(case["cycles"]):
@@ -106,9 +107,11 @@ def run_case(case):
             ctx.set(bus.r_stb, inp["r_stb"])
             ctx.set(bus.w_stb, inp["w_stb"])
             ctx.set(bus.w_data, inp["w_data"])
-            i_vec = bits(rng, pins)
+            i_vec = bits(rng, pins)          # the level at the clock edge that ends this cycle
+            glitch = async_pins and c > 0 and rng.random() < 0.7     # (the first rising edge comes after half a period)
+            first = bits(rng, pins) if glitch else i_vec
             for n in range(pins):
-                ctx.set(dut.pins[n].i, (i_vec >> n) & 1)
+                ctx.set(dut.pins[n].i, (first >> n) & 1)
             st["hist"] = (st["hist"] + [i_vec])[-(stages + 1):]
             delayed = st["hist"][0]                      # level `stages` cycles ago (0 before that)
             vals = [0] * 4
@@ -170,6 +173,19 @@ def run_case(case):
                 st["mode"], st["out"] = 0, 0
                 model.reset()
                 mon.count("warm_resets")
+            if glitch:
+                # pins that are not synchronous to the clock: they change once or twice inside the cycle (before and/or
+                # after the falling edge) and only the level present at the rising edge counts
+                t1 = rng.choice([0.1, 0.25, 0.4, 0.45])
+                t2 = rng.choice([0.55, 0.6, 0.75, 0.9])
+                await ctx.delay(t1 * 1e-6)
+                mid = rng.choice([i_vec, bits(rng, pins), pmask, 0])
+                for n in range(pins):
+                    ctx.set(dut.pins[n].i, (mid >> n) & 1)
+                await ctx.delay((t2 - t1) * 1e-6)
+                for n in range(pins):
+                    ctx.set(dut.pins[n].i, (i_vec >> n) & 1)
+                mon.count("cycles_with_pin_changes_inside_the_cycle")
             await ctx.tick()
 
     simulate(Top({"gpio": dut}), bench, mon)
